@@ -185,6 +185,18 @@ def _ahc(U):
     U.external("StaticCalculator.__call__ with fder = 0: sum over the band groups with E <= E_F of the formula's trace, averaged over k (contract of C13)")
 
 
+# ------------------------------------------------------------------ which band groups the Fermi-sea sum runs over (units shared with C13 / C14)
+# "Fermi level above all bands => every band counted exactly once" is what turns the formula-level sum rule into AHC = 0:
+# the band blocks must be pairwise disjoint and cover all bands, in the grid-sum mode (Data_K.get_bands_in_range_groups_ik, C13)
+# and in the tetrahedron mode (TetraWeights.weights_all_band_groups, C14), also for degenerate groups straddling the first Fermi level
+from contracts import C13 as _c13, C14 as _c14      # noqa: E402
+
+for _nb in (2, 3):
+    _c13._groups_unit(_nb, True, prop="C27")
+_c14._wabg_unit(2, 0, prop="C27")
+_c14._wabg_unit(2, -1, prop="C27")
+
+
 # ------------------------------------------------------------------ bounded stand-ins
 def _quiet():
     return contextlib.redirect_stdout(io.StringIO())
